@@ -7,18 +7,30 @@
 EXTENDS Naturals, Integers, Sequences, TLC, Json
 CONSTANT TraceFile
 Traces == ndJsonDeserialize(TraceFile)
-VARIABLES tr, l, owner
-vars == <<tr, l, owner>>
+VARIABLES tr, l, owner, eps      \* eps (traces with T.byeps): cluster (named by its own host name) -> bit mask of the stubs its latest object lists as enabled
+vars == <<tr, l, owner, eps>>
 T == Traces[tr]
 Ev == T.events[l]
-Init == tr \in DOMAIN Traces /\ l = 1 /\ owner = T.owner
 Rs(s) == {s[i] : i \in DOMAIN s}
+Init == tr \in DOMAIN Traces /\ l = 1 /\ owner = T.owner /\ eps = T.eps
+RECURSIVE Pow2(_)
+Pow2(n) == IF n = 0 THEN 1 ELSE 2 * Pow2(n - 1)
+Bit(m, s) == s >= 0 /\ (m \div Pow2(s)) % 2 = 1
+\* endpoint histories (AuthEndpoints.tla): endpoints are handed from one cluster to the other, disabled, enabled; every review of a request goes
+\* to a stub that is NOW a listed, enabled endpoint of the request's own cluster; the request is forwarded to such a stub, acting as the identity
+\* such a stub gave; a cluster without one is not asked (and nothing is forwarded)
+EpOK == Ev.k = "req" =>
+        /\ \A s \in Rs(Ev.reviews) : Bit(eps[Ev.h], s)
+        /\ Ev.at # -1 => (Bit(eps[Ev.h], Ev.at) /\ (~Ev.imp => Bit(eps[Ev.h], Ev.user)))
+        /\ eps[Ev.h] = 0 => (Ev.at = -1 /\ Ev.reviews = <<>>)
 OK == Ev.k = "req" =>
         /\ \A s \in Rs(Ev.reviews) : s = owner[Ev.h]          \* reviews only go to the request's own cluster
         /\ Ev.at # -1 => (Ev.at = owner[Ev.h] /\ (~Ev.imp => Ev.user = owner[Ev.h]))   \* forwarded to its own cluster, acting as the identity THAT cluster gave
         /\ owner[Ev.h] = -1 => Ev.at = -1
-Next == /\ l <= Len(T.events) /\ OK /\ l' = l + 1 /\ tr' = tr
-        /\ owner' = IF Ev.k = "own" THEN [owner EXCEPT ![Ev.h] = Ev.c] ELSE owner
+Accept == IF T.byeps THEN EpOK ELSE OK
+Next == /\ l <= Len(T.events) /\ (Accept = TRUE) /\ l' = l + 1 /\ tr' = tr
+        /\ owner' = IF Ev.k = "own" /\ ~T.byeps THEN [owner EXCEPT ![Ev.h] = Ev.c] ELSE owner
+        /\ eps' = IF Ev.k = "own" /\ T.byeps THEN [eps EXCEPT ![Ev.h] = Ev.c] ELSE eps
 Spec == Init /\ [][Next]_vars
-Judge == (l <= Len(T.events) /\ ~OK) => PrintT(<<"REJECT", T.id, l>>)
+Judge == (l <= Len(T.events) /\ ~Accept) => PrintT(<<"REJECT", T.id, l>>)
 =============================================================================
